@@ -73,6 +73,24 @@ vf.fnreg("CTX", uq)
 
 def _cb(tag, f, arg, beh, d):
     vf.rec("cb", tag, f, arg)
+    if isinstance(beh, list):
+        # ["mut", [[add|rm, target, function, arg, behaviour, d], ...], final behaviour]: this done-callback changes
+        # a callback table itself - target "self" is task.current_task(), the task that is ending right now
+        for x in beh[1]:
+            tgt = task.current_task() if x[1] == "self" else vf.task(x[1])
+            who = tag if x[1] == "self" else x[1]
+            if tgt is None or tgt.done():
+                continue
+            vf.rec("cbx", tag, f, x[0], who, x[2], x[3])
+            try:
+                if x[0] == "add":
+                    task.add_done_callback(tgt, _fn(x[2]), who, x[3], x[4], x[5], rec=vf.rec)
+                else:
+                    task.remove_done_callback(tgt, _fn(x[2]))
+            except Exception as e:
+                vf.rec("exc", tag, type(e).__name__)
+                raise ValueError("api")
+        beh = beh[2]
     if beh == "raise":
         vf.rec("cbop", tag, f, "raise", 0)
         raise ValueError("cb")
@@ -160,7 +178,11 @@ def _fn(f):
 def _seen(t):
     if t.cancelled():
         return "cancelled"
-    if t.result() is None:
+    try:
+        r = t.result()
+    except Exception:
+        return "error"
+    if r is None:
         return "none"
     return "value"
 
@@ -531,6 +553,8 @@ def lines_of(recs):
             out.append({"k": "res", "t": a[1], "w": a[2], "ts": ts})
         elif k == "cb":
             out.append({"k": "cb", "t": a[1], "f": a[2], "a": a[3], "ts": ts})
+        elif k == "cbx":
+            out.append({"k": "cbx", "t": a[1], "f": a[2], "x": a[3], "v": a[4], "g": a[5], "a": a[6], "ts": ts})
         elif k == "cbop":
             out.append({"k": "cbop", "t": a[1], "f": a[2], "b": a[3], "d": ms(a[4]), "ts": ts})
         elif k == "cbres":
@@ -731,6 +755,61 @@ def corruptions_round4(cases, want):
     return bad, expect, {"name2id_view_without_caller": na, "owner_under_starting_context": nb}
 
 
+def corruptions_exit_table(cases, want):
+    """Corrupted copies of recordings of the kind added in C14's round 4 (the callback table of a task changes while
+    the task runs its done-callbacks; what the seeded defect C14-c2 did to the code):
+    (a) after a done-callback changed the table of the ending task, the invocation of a LATER callback whose entry
+        nobody touched is dropped (the change aborts the callback loop): TLC must reject - the task cannot finish;
+    (b) the waiter of such a task sees an error instead of the task's outcome: rejected at exactly that line.
+    Returns (corrupted cases, {id: (base id, line, exact)}, counts)."""
+    bad, expect = [], {}
+    na = nb = 0
+    for c in cases:
+        tr = c["trace"]
+        changed = {}                                   # ending task -> functions whose entry was touched during exit
+        first = {}
+        for j, ln in enumerate(tr):
+            if ln["k"] == "cbx" and ln["v"] == ln["t"]:
+                changed.setdefault(ln["t"], set()).add(ln["g"])
+                first.setdefault(ln["t"], j)
+        if not changed:
+            continue
+        susp = {x["t"] for x in tr if x["k"] == "cbop" and x["b"] == "sleep"}
+        began = {}
+        for j, x in enumerate(tr):
+            if x["k"] == "cb":
+                began.setdefault(x["t"], j)
+        # (not where ANOTHER task changed the table during the exit protocol as well)
+        ext = {x["v"] for j, x in enumerate(tr) if x["k"] == "op" and x["op"] in ("addcb", "rmcb") and j > began.get(x["v"], len(tr))}
+        if na < want:
+            for t in sorted(changed):
+                if t in susp or t in ext:
+                    continue
+                hit = [i for i in range(first[t] + 1, len(tr) - 1) if tr[i]["k"] == "cb" and tr[i]["t"] == t
+                       and tr[i]["f"] not in changed[t] and tr[i + 1]["k"] == "cbop" and tr[i + 1]["b"] in ("ret", "raise")]
+                if hit:
+                    i = hit[0]
+                    cid = "corrupt-exit-table-rest/" + c["id"]
+                    bad.append({"id": cid, "flags": [], "trace": tr[:i] + tr[i + 2:]})
+                    expect[cid] = (c["id"], i + 1, False)
+                    na += 1
+                    break
+        if nb < want:
+            waits = {}
+            for j, ln in enumerate(tr):
+                if ln["k"] == "op" and ln["op"] == "wait":
+                    waits[ln["t"]] = ln["v"]
+                if ln["k"] == "res" and ln["w"] in ("value", "none", "cancelled") and waits.get(ln["t"]) in changed \
+                        and first[waits[ln["t"]]] < j:
+                    c2 = {"id": "corrupt-exit-table-outcome/" + c["id"], "flags": [], "trace": copy.deepcopy(tr)}
+                    c2["trace"][j]["w"] = "error"
+                    bad.append(c2)
+                    expect[c2["id"]] = (c["id"], j + 1, True)
+                    nb += 1
+                    break
+    return bad, expect, {"exit_table_change_drops_later_callbacks": na, "exit_table_change_replaces_outcome": nb}
+
+
 def overlapping_callbacks(case):
     """Input class of the finding cb-shared-interpreter: done-callbacks of two different tasks are
     suspended at overlapping times (taken from the recording's cbop sleep lines)."""
@@ -746,7 +825,20 @@ def validate(ctx, prop, cases, label, masked_ids=(), selftest_want=0):
                               3 * selftest_want) if selftest_want else ([], {})
     bad3, expect3, n3 = corruptions_round3(cases, selftest_want) if (selftest_want and prop == "C14") else ([], {}, {})
     bad4, expect4, n4 = corruptions_round4(cases, selftest_want) if (selftest_want and prop == "C13") else ([], {}, {})
-    rej, res = accept(ctx, [slim(c) for c in cases] + bad + bad3 + bad4, label, coverage=True)
+    bad5, expect5, n5 = corruptions_exit_table(cases, selftest_want) if (selftest_want and prop == "C14") else ([], {}, {})
+    rej, res = accept(ctx, [slim(c) for c in cases] + bad + bad3 + bad4 + bad5, label, coverage=True)
+    if selftest_want and prop == "C14":
+        chk = {i: (b, ln, ex) for i, (b, ln, ex) in expect5.items() if b not in rej}
+        wrong = [(i, rej.get(i), ln) for i, (b, ln, ex) in chk.items()
+                 if (rej.get(i) != ln if ex else not (rej.get(i) and rej[i] >= ln))]
+        if wrong:
+            raise MachineryFailure("selftest: corrupted recordings (callback table changed during the exit protocol) "
+                                   "not rejected: %s" % wrong[:3])
+        for key, pre_ in (("exit_table_change_drops_later_callbacks", "corrupt-exit-table-rest/"),
+                          ("exit_table_change_replaces_outcome", "corrupt-exit-table-outcome/")):
+            got = len([i for i in chk if i.startswith(pre_)])
+            ctx.cov.setdefault("selftest_exit_table", {})[key] = got
+            # (whether the batch contains such recordings at all is the driver's vacuity guard: c14.main)
     if selftest_want and prop == "C13":
         chk = {i: (b, ln) for i, (b, ln) in expect4.items() if b not in rej}
         wrong = [(i, rej.get(i), ln) for i, (b, ln) in chk.items() if rej.get(i) != ln]
